@@ -104,6 +104,12 @@ CHECKS = {
          "Six deterministic workloads (nested multi-row mutation, deletion, room mutation, ingested batch, 1/2/5 requests sharing one transaction through the writer gate, recompute) run in a child process on a real GraphDatabaseService; a dry run counts the hits of each fault point of the batch writer, then for every point, every hit index and both modes (process abort; injected statement error where the writer uses the result) - plus a veto of every COMMIT and an SQLITE_INTERRUPT at every k-th progress callback - the child runs again, logging each acknowledgement or failure before continuing; a second process reopens the folder with a normal start. Clauses: the reopened state (id-free canonical form) equals the state after a prefix of whole requests containing every acknowledged one; a request reported failed has no effect; after an injected error the next request succeeds; after restart no mark is pending and the daily log equals a harness recomputation and a real from-scratch pass.",
          "Process death on tmpfs, not power loss: SQLite WAL recovery is trusted. Single faults only. history_hash is excluded from the repair comparison (C09 decides it). Interrupt cases are judged but counted apart because the callback count varies with HashMap order.",
          "DESIGN.md section 5 C13"),
+
+ "C20": ("model_checking",
+         "explicit-state breadth-first search on the real lock scheduler actor (probe-keyed, symmetry-reduced, replay-rebuilt states) plus exhaustive schedule enumeration of exit-path events on real connection tasks",
+         "Part A: every sequence of request(circuit, ordered room selection, new or same reply channel) / unlock(room) sent by any circuit (holder or not, so double and foreign releases are ordinary events) / receiver drop on the real RoomLockService, limits 1 and 2: full alphabet (3 circuits x 3 rooms, 102 events) to depth 4 (6 thorough), single-room requests to depth 6 (10), and the 2 x 2 scope to its fixpoint (every sequence of any length); states are read with the verification probe, rebuilt by replay on a fresh actor and merged up to renaming of circuits and rooms (self-checked against the unreduced search). Every step: a room held by at most one circuit, held <= limit, available + locked == limit, a grant only for a pending request; from every state the fair closure (holders release everything, repeat) must serve every live request once and leave nothing locked. Part B: orders of exit-path events (ready, answers, partial room list, error answer, events closed, answers closed) on two real LocalPeerService connection tasks sharing the real scheduler: never two pulls of one room in flight, nothing locked when both connections have ended.",
+         "Part B quick runs 14 fixed orders twice (thorough: all 5011 orders up to length 6, prefix-cross-checked); the select! race between a closing event channel and a queued grant is driven as its two sequenced orders; query timeouts are not driven. Symmetry reduction is sound because the actor touches identifiers only through Eq/Hash.",
+         "DESIGN.md section 5 C20"),
 }
 
 NOT_YET = {
